@@ -188,7 +188,16 @@ theorem pair_same_nomerge {f : Forest} {q : Nat} {vq : Value} {l : List HTree} {
       exact prevOf_insert_ne_nil l t kr hm
     · exact ⟨A, m ++ r, by rw [hl]; simp, hprev0⟩
   obtain ⟨A', B', hAB', hprev⟩ := key
-  have T := tail_same so hAB' (fun h => leaf_of_text inv.valid hgc h) hleaf' (fun _ => hprev)
+  obtain ⟨ndLs, _⟩ := so.nodupKids
+  obtain ⟨tls, trs⟩ := tops_ne_of_nodup ndLs
+  have hnotA' : ∀ k ∈ A', k.handle ≠ t.handle := by
+    intro k hk
+    have : k ∈ l ++ r := by rw [hAB']; exact List.mem_append_left _ hk
+    cases List.mem_append.1 this with
+    | inl h => exact tls k h
+    | inr h => exact trs k h
+  have T := tail_same so hAB' (fun h => leaf_of_text inv.valid hgc h) hleaf'
+    (fun _ => selfPrev_prevOf hnotA' hprev)
   rw [tail_core T rfl hkrn, Forest.editAt_editAt]
   congr 1
   apply so.congr
@@ -207,7 +216,6 @@ theorem pair_same_merged {f : Forest} {q : Nat} {vq : Value} {l' : List HTree} {
     (hAB : A ++ kr :: B = (l' ++ [a]) ++ t :: b :: r')
     (hrc : kr.handle ≠ t.handle) (hkrn : kr.value.isNormal = true) (htn : t.value.isNormal = true)
     (hsame : ¬ prevOf A kr = some t.handle)
-    (hsm : selfMerge f (.before kr.handle) t.handle = false)
     (O : OldP f q vq (l' ++ [a]) t (b :: r') X (l' ++ [a.setValue (.text (x ++ y))]) r'
       (mergeAdj a.handle b.handle)) :
     (insertBeforeTail X kr.handle t.handle).1 =
@@ -236,7 +244,7 @@ theorem pair_same_merged {f : Forest} {q : Nat} {vq : Value} {l' : List HTree} {
   -- the common end: the lists agree
   have finish : ∀ (kr' : HTree) (A' B' : List HTree), kr'.handle = kr.handle → kr'.value.isNormal = true →
       (l' ++ [a']) ++ r' = A' ++ kr' :: B' →
-      (t.value.isText = true → X.prevSibling kr'.handle = prevOf A' kr') →
+      (t.value.isText = true → X.selfPrev t.handle (X.prevSibling kr'.handle) = prevOf A' kr') →
       A' ++ t :: kr' :: B' =
         mergeAdj a.handle b.handle (insertBeforeTop kr.handle t ((l' ++ [a]) ++ b :: r')) →
       (insertBeforeTail X kr.handle t.handle).1 =
@@ -256,6 +264,16 @@ theorem pair_same_merged {f : Forest} {q : Nat} {vq : Value} {l' : List HTree} {
     apply so.congr
     simp only [Function.comp]
     rw [hdropX, hAB1, hI, hdrop, hlist]
+  have conv : ∀ (A' : List HTree) (kr' : HTree) (B' : List HTree), (l' ++ [a']) ++ r' = A' ++ kr' :: B' →
+      X.prevSibling kr'.handle = prevOf A' kr' →
+      X.selfPrev t.handle (X.prevSibling kr'.handle) = prevOf A' kr' := by
+    intro A' kr' B' hAB1 h
+    refine selfPrev_prevOf ?_ h
+    intro k hk
+    have : k ∈ (l' ++ [a']) ++ r' := by rw [hAB1]; exact List.mem_append_left _ hk
+    cases List.mem_append.1 this with
+    | inl h => exact tlX k h
+    | inr h => exact trX k h
   rcases split_two hAB hkt with ⟨m, hA, hr⟩ | ⟨m, hl, hB⟩
   · -- `t` before the reference
     cases m with
@@ -274,15 +292,23 @@ theorem pair_same_merged {f : Forest} {q : Nat} {vq : Value} {l' : List HTree} {
         have sX' : SiteAt X q vq (((l' ++ [a']) ++ t :: Z) ++ kr :: B) := by
           have e : ((l' ++ [a']) ++ t :: Z) ++ kr :: B = (l' ++ [a']) ++ t :: (Z ++ kr :: B) := by simp
           rw [e]; exact sX
-        rw [Forest.prevSibling_of_ctx sX'.ctx]
-        simp only
-        have hZ : Z ≠ [] := by
-          intro eZ
-          subst eZ
-          have := selfMerge_true (kr := kr) (B := B) so hc hat htt hbt
-          rw [hsm] at this
-          cases this
-        exact prevOf_insert_ne_nil (l' ++ [a']) t kr hZ
+        by_cases hZ : Z = []
+        · -- the corner `selfMerge`: after the old-place merge the node stands before the
+          -- reference already; the helper takes the node's own previous sibling
+          subst hZ
+          have ha'n : a'.value.isNormal = true := by
+            simp [a', setValue_value, Value.isNormal, Value.category]
+          rw [Forest.prevSibling_of_ctx sX'.ctx]
+          simp only [List.append_nil]
+          have e1 : prevOf ((l' ++ [a']) ++ t :: []) kr = some t.handle :=
+            prevOf_cons_normal (l := l' ++ [a']) htn hkrn
+          rw [e1, Forest.selfPrev_self, Forest.prevSibling_of_ctx sX.ctx]
+          simp only
+          rw [prevOf_concat_normal ha'n htn, prevOf_concat_normal ha'n hkrn]
+        · refine conv ((l' ++ [a']) ++ Z) kr B (by simp) ?_
+          rw [Forest.prevSibling_of_ctx sX'.ctx]
+          simp only
+          exact prevOf_insert_ne_nil (l' ++ [a']) t kr hZ
       · have htopsk : ∀ k ∈ (l' ++ [a]) ++ b :: Z, k.handle ≠ kr.handle := by
           intro k hk
           apply htopsAB k
@@ -314,6 +340,7 @@ theorem pair_same_merged {f : Forest} {q : Nat} {vq : Value} {l' : List HTree} {
         have sX' : SiteAt X q vq (l' ++ a' :: (t :: r')) := by
           have e : l' ++ a' :: (t :: r') = (l' ++ [a']) ++ t :: r' := by simp
           rw [e]; exact sX
+        refine conv l' a' r' (by simp) ?_
         rw [Forest.prevSibling_of_ctx sX'.ctx]
       · have e3 : (l' ++ [a]) ++ b :: r' = l' ++ a :: (b :: r') := by simp
         have e4 : l' ++ t :: a :: (b :: r') = (l' ++ [t]) ++ a :: b :: r' := by simp
@@ -339,6 +366,7 @@ theorem pair_same_merged {f : Forest} {q : Nat} {vq : Value} {l' : List HTree} {
         have sX' : SiteAt X q vq (A ++ kr :: (W ++ a' :: t :: r')) := by
           have e : A ++ kr :: (W ++ a' :: t :: r') = ((A ++ kr :: W) ++ [a']) ++ t :: r' := by simp
           rw [e]; exact sX
+        refine conv A kr (W ++ a' :: r') (by simp) ?_
         rw [Forest.prevSibling_of_ctx sX'.ctx]
       · have e3 : ((A ++ kr :: W) ++ [a]) ++ b :: r' = A ++ kr :: (W ++ a :: b :: r') := by simp
         have e4 : A ++ t :: kr :: (W ++ a :: b :: r') = (A ++ t :: kr :: W) ++ a :: b :: r' := by simp
@@ -368,8 +396,7 @@ theorem insertBefore_pair_tail {f : Forest} {c : Nat} {t : HTree} {q : Nat} {vq 
     (hkrn : kr.value.isNormal = true) (hrc : kr.handle ≠ c) (hgc : f.get? c = some t) (hqt : q ∉ handles t)
     (hnorm : t.value.isNormal = true) (hvq : vq.isText = false)
     (hsame : ¬ prevOf A kr = some c)
-    (hocc : Dest.occupiedBy f c (.before kr.handle) = false)
-    (hsm : selfMerge f (.before kr.handle) c = false) :
+    (hocc : Dest.occupiedBy f c (.before kr.handle) = false) :
     (insertBeforeTail (f.removeConsolidate (f.prevSibling c) (f.nextSibling c)).1 kr.handle c).1 =
       specMoveP (.before kr.handle) c f := by
   have nd := inv.nodup
@@ -408,13 +435,14 @@ theorem insertBefore_pair_tail {f : Forest} {c : Nat} {t : HTree} {q : Nat} {vq 
       · subst eX
         exact pair_same_nomerge inv so hAB hrc hkrn hnorm hsame hnoop
       · subst el er e1 e2 eM
-        exact pair_same_merged inv so hc hx hy hAB hrc hkrn hnorm hsame hsm O
+        exact pair_same_merged inv so hc hx hy hAB hrc hkrn hnorm hsame O
     · exact pair_far inv so sq hpo hqt hvq hkrn hocc
 
 /-- **insert_before** against the pair reading of the consolidation clause, for every forest
-    satisfying the invariant (adjacent text nodes allowed), outside the `selfMerge` corner. -/
-theorem insertBefore_pair {f : Forest} {r c : Nat} (inv : f.Inv) (hok : (f.insertBefore r c).2 = .ok)
-    (hsm : selfMerge f (.before r) c = false) :
+    satisfying the invariant (adjacent text nodes allowed); also in the corner `selfMerge` (the
+    old-place merge brings the node before the reference already: since xot eccbbb7 the helper
+    then merges it into its own previous sibling). -/
+theorem insertBefore_pair {f : Forest} {r c : Nat} (inv : f.Inv) (hok : (f.insertBefore r c).2 = .ok) :
     (f.insertBefore r c).1 = specMoveP (.before r) c f := by
   have nd := inv.nodup
   have hsc : f.structureCheck (f.parent? r) c = true := by
@@ -440,12 +468,12 @@ theorem insertBefore_pair {f : Forest} {r c : Nat} (inv : f.Inv) (hok : (f.inser
       | true => exact absurd (hoccIff.1 h) hsame
     rw [insertBefore_unfold]
     simp only [hsc, hsr, hprev, Bool.not_true, Bool.false_eq_true, if_false, beq_iff_eq, hsame]
-    exact insertBefore_pair_tail inv sq hkrn hrc hgc hqt hnorm hvq hsame hocc hsm
+    exact insertBefore_pair_tail inv sq hkrn hrc hgc hqt hnorm hvq hsame hocc
 
 /-- The hypotheses are satisfiable on a forest WITH adjacent text nodes (consolidation on after
     having been off): a text node moved next to a run (merged into its left neighbour only), the
-    neighbours of a leaving node merged, a move within one child list; and the excluded corner,
-    in which xot destroys the moved node (`2` between `1` and `3`, moved before `4`). -/
+    neighbours of a leaving node merged, a move within one child list; and the corner `selfMerge`
+    (`2` between `1` and `3`, moved before `4`: merged into `1`, which then reads `acb`). -/
 example :
     let f : Forest := { roots := [.node 0 (.element 2) [.node 1 (.text ['a']) [], .node 2 (.text ['b']) [],
                           .node 3 (.text ['c']) [], .node 4 (.element 3) [], .node 5 (.text ['d']) []],
@@ -463,7 +491,8 @@ example :
       (f.insertBefore 1 5).2 = .ok ∧ selfMerge f (.before 1) 5 = false ∧
       (f.insertBefore 1 5).1 = specMoveP (.before 1) 5 f ∧
       selfMerge f (.before 4) 2 = true ∧ (f.insertBefore 4 2).2 = .ok ∧ (f.insertBefore 4 2).1.isLive 2 = false ∧
-      (f.insertBefore 4 2).1 ≠ specMoveP (.before 4) 2 f := by
+      (f.insertBefore 4 2).1 = specMoveP (.before 4) 2 f ∧
+      (f.insertBefore 4 2).1.value? 1 = some (.text ['a', 'c', 'b']) := by
   decide
 
 end XotModel
